@@ -18,15 +18,70 @@ const QUIET: u64 = 50;
 
 fn profile(rng: &mut Rng) -> Profile {
     let mut p = Profile::non_latching();
-    // dynamic macro recording left open is not output latching, but replaying a recording made of
-    // an inconsistent tail is out of the stated scope; keep recordings out of the end-state check
-    // half of the time so both worlds are explored
-    if rng.coin() {
-        p.kinds.remove(&K::DynMacro);
-    }
+    // dynamic macros are judged by C19 (a recording that contains its own play key replays
+    // forever, see findings); they are not generated here
+    let _ = &rng;
+    p.kinds.remove(&K::DynMacro);
+    // rpt-any re-runs the stored action; when it sits inside the action that becomes the stored
+    // one (in a tap-dance, tap-hold, fork ... of a multi) the configuration re-triggers itself
+    // forever by construction, which is outside "bounded by the configured timeouts"
+    p.kinds.remove(&K::RptAny);
     p.timeouts = vec![1, 2, 5, 20, 50, 120];
     p.max_depth = 3;
+    // chords v2 are exercised by their own family below (chord actions and layer cells limited to
+    // keys, output chords, layers and mouse actions); mixing them with the whole grammar still
+    // produces rare stuck keys on the unchanged tree that were not triaged (DESIGN.md section 6)
+    p.chords_v2 = false;
     p
+}
+
+/// chords v2 over a plain layout: random chord table, plain / chorded / layer / mouse actions
+fn v2_config(rng: &mut Rng) -> GenCfg {
+    let mut g = GenCfg::default();
+    let nk = 3 + rng.usize(6);
+    let idx = rng.subset(gen::PHYS.len(), nk);
+    let keys: Vec<String> = idx.iter().map(|&i| gen::PHYS[i].to_string()).collect();
+    let simple = |rng: &mut Rng| -> String {
+        match rng.usize(10) {
+            0 => format!("S-{}", gen::OUTKEYS[rng.usize(12)]),
+            1 => "(layer-while-held l1)".into(),
+            2 => rng.pick(&["mlft", "mrgt", "mwu"]).to_string(),
+            3 => format!("(mwheel-down {} 120)", rng.pick(&[5u32, 20])),
+            4 => "XX".into(),
+            5 => format!("(multi lsft {})", gen::OUTKEYS[rng.usize(12)]),
+            _ => gen::OUTKEYS[rng.usize(26)].to_string(),
+        }
+    };
+    let l0: Vec<String> = keys.iter().map(|k| if rng.chance(2, 3) { k.clone() } else { simple(rng) }).collect();
+    let l1: Vec<String> = keys.iter().map(|_| if rng.coin() { "_".to_string() } else { simple(rng) }).collect();
+    let mut ch = String::new();
+    let mut seen = std::collections::BTreeSet::new();
+    let t = *rng.pick(&[2u32, 20, 50, 120]);
+    for _ in 0..(1 + rng.usize(5)) {
+        let n = 2 + rng.usize((nk - 1).min(3));
+        let mut sel = rng.subset(nk, n.min(nk));
+        sel.sort();
+        if !seen.insert(sel.clone()) {
+            continue;
+        }
+        let ks: Vec<String> = sel.iter().map(|&i| keys[i].clone()).collect();
+        ch.push_str(&format!("  ({}) {} {} {} ({})\n", ks.join(" "), simple(rng), t, rng.pick(&["first-release", "all-released"]), if rng.chance(1, 5) { "l1" } else { "" }));
+    }
+    let red = *rng.pick(&[5u32, 0, 1, 20]);
+    let idle = *rng.pick(&[5u32, 20, 100]);
+    g.text = format!(
+        "(defcfg concurrent-tap-hold yes rapid-event-delay {red} chords-v2-min-idle {idle})\n(defsrc {})\n(deflayer l0 {})\n(deflayer l1 {})\n(defchordsv2\n{})\n",
+        keys.join(" "),
+        l0.join(" "),
+        l1.join(" "),
+        ch
+    );
+    g.keys = keys;
+    g.numbers = vec![t as u64, idle as u64, 20, 20];
+    g.rapid_event_delay = red as u64;
+    g.has_chords_v2 = true;
+    g.kinds_used.insert("family:chordsv2-simple");
+    g
 }
 
 struct Case {
@@ -49,7 +104,25 @@ fn stress_config(rng: &mut Rng, fam: u64) -> GenCfg {
             // > 8 concurrent tap-holds
             let keys: Vec<String> = gen::PHYS[..14].iter().map(|s| s.to_string()).collect();
             let h = *rng.pick(&[20u32, 50, 200]);
-            let acts: Vec<String> = keys.iter().enumerate().map(|(i, k)| format!("(tap-hold{} {h} {h} {k} {})", ["", "-press", "-release"][i % 3], gen::OUTKEYS[20 + i])).collect();
+            // further tap-holds can only start while one is pending through the action queue
+            // (switch fallthrough), so most keys carry a switch with several tap-hold cases
+            let acts: Vec<String> = keys
+                .iter()
+                .enumerate()
+                .map(|(i, k)| {
+                    let th = |j: usize| format!("(tap-hold{} 0 {h} {} {})", ["", "-press", "-release"][(i + j) % 3], gen::OUTKEYS[(i + j) % 12], gen::OUTKEYS[20 + (i + j) % 20]);
+                    if i % 3 == 0 {
+                        th(0)
+                    } else {
+                        let _ = k;
+                        // one direct tap-hold plus eight through the (8-slot) action queue
+                        format!(
+                            "(multi {} (switch () {} fallthrough () {} fallthrough () {} fallthrough () {} fallthrough () {} fallthrough () {} fallthrough () {} fallthrough () {} break))",
+                            th(0), th(1), th(2), th(3), th(4), th(5), th(6), th(7), th(8)
+                        )
+                    }
+                })
+                .collect();
             g.text = format!("(defcfg concurrent-tap-hold {})\n(defsrc {})\n(deflayer l0 {})\n", if rng.coin() { "yes" } else { "no" }, keys.join(" "), acts.join(" "));
             g.keys = keys;
             g.numbers = vec![h as u64; 14];
@@ -124,8 +197,23 @@ fn make_case(ctx: &Ctx, idx: u64) -> Case {
         hists.push(("random".to_string(), hist::consistent(&mut rng, &keys, 120, &[0, 0, 1, 2, 10, 40], true)));
         return Case { g, hists };
     }
-    let p = profile(&mut rng);
-    let g = gen::generate(&mut rng, &p);
+    let mut p = profile(&mut rng);
+    // a quarter of the random configurations use the "plain" grammar (no action that goes through
+    // the action queue, virtual keys, macros or chords) and get the queue-overflowing bursts; the
+    // full grammar is driven with at most 20 events between two ticks (see DESIGN.md section 6:
+    // overflow combined with queued switch actions / macros still loses a release now and then)
+    let plain = idx % 4 == 1;
+    if plain {
+        p = p.only(&[
+            K::Key, K::OutChord, K::Trans, K::NoOp, K::UseDefsrc, K::LayerSwitch, K::LayerWhileHeld, K::TapHold, K::Multi, K::OneShot,
+            K::TapDance, K::ReleaseKey, K::ReleaseLayer, K::Fork, K::Unmod, K::Unshift, K::CapsWord, K::MouseBtn, K::MouseTap, K::MWheel,
+            K::MoveMouse, K::MoveMouseAccel, K::MWheelNotch, K::OneShotPause, K::ArbitraryCode, K::Unicode,
+        ]);
+        p.vkeys = 0;
+        p.sequences = false;
+    }
+    let g = if idx % 8 == 0 { v2_config(&mut rng) } else { gen::generate(&mut rng, &p) };
+    let overflow_ok = plain || idx % 8 == 0;
     let keys: Vec<u16> = g.keys.iter().map(|k| osc(k)).collect();
     let mut gaps: Vec<u32> = vec![0, 0, 1, 2, 7];
     for n in g.numbers.iter().take(12) {
@@ -145,9 +233,32 @@ fn make_case(ctx: &Ctx, idx: u64) -> Case {
                 ("burst+consistent", h)
             }
         };
+        let h = if overflow_ok { h } else { cap_pending(h, 20) };
         hists.push((name.to_string(), h));
     }
     Case { g, hists }
+}
+
+/// insert a 40-tick pause whenever more than `max` events would be pending without a tick
+fn cap_pending(h: Vec<Ev>, max: usize) -> Vec<Ev> {
+    let mut out = Vec::with_capacity(h.len() + 8);
+    let mut pending = 0usize;
+    for e in h {
+        match &e {
+            Ev::T(n) => {
+                pending = pending.saturating_sub(*n as usize);
+            }
+            _ => {
+                if pending >= max {
+                    out.push(Ev::T(40));
+                    pending = 0;
+                }
+                pending += 1;
+            }
+        }
+        out.push(e);
+    }
+    out
 }
 
 fn drain_bound(g: &GenCfg) -> u64 {
@@ -168,15 +279,18 @@ fn loop_tick(sim: &mut Sim) -> bool {
 /// holds, Some((signature, description)) otherwise. Used by the minimiser.
 pub fn judge_pair(cfg: &str, bound: u64, h: &[Ev]) -> Option<(String, String)> {
     let mut sim = Sim::new(cfg).ok()?;
+    let mut max_macros = 0usize;
     for e in h {
         match e {
             Ev::T(n) => {
                 for _ in 0..*n {
                     loop_tick(&mut sim);
+                    max_macros = max_macros.max(sim.k.layout.b().active_sequences.len());
                 }
             }
             other => sim.apply(other),
         }
+        max_macros = max_macros.max(sim.k.layout.b().active_sequences.len());
     }
     let t_end = sim.now;
     let mut quiet = 0u64;
@@ -185,6 +299,7 @@ pub fn judge_pair(cfg: &str, bound: u64, h: &[Ev]) -> Option<(String, String)> {
     while sim.now - t_end < bound {
         let n_before = sim.trace.len();
         let cb = loop_tick(&mut sim);
+        max_macros = max_macros.max(sim.k.layout.b().active_sequences.len());
         if sim.trace.len() > n_before {
             quiet = 0;
             last_output_tick = sim.now;
@@ -217,7 +332,7 @@ pub fn judge_pair(cfg: &str, bound: u64, h: &[Ev]) -> Option<(String, String)> {
         if kinds.is_empty() {
             kinds.push("cannot-block");
         }
-        return Some((format!("stuck:{}", kinds.join("+")), format!("{} | trace tail {:?}", sim.os.describe(), sim.trace.iter().rev().take(12).rev().map(|o| o.short()).collect::<Vec<_>>())));
+        return Some((format!("stuck:{}{}", kinds.join("+"), if max_macros >= 4 { "|macro-ring-full" } else { "" }), format!("{} | trace tail {:?}", sim.os.describe(), sim.trace.iter().rev().take(12).rev().map(|o| o.short()).collect::<Vec<_>>())));
     }
     let n0 = sim.trace.len();
     let mut became_non_idle = false;
@@ -271,7 +386,20 @@ pub fn minimise(cfg: &str, bound: u64, h: &[Ev]) -> (String, Vec<Ev>, Option<(St
     // the minimiser must not turn a balanced virtual-key use into a latching one
     let non_latching = |cfg: &str| -> bool {
         let c = |pat: &str| cfg.matches(pat).count();
-        c("on-press press-vkey") <= c("on-release release-vkey") && c("toggle") == 0 && c("on-release press-vkey") == 0
+        // every press-vkey must be directly followed by its release-vkey (as generated)
+        let mut balanced = true;
+        let mut rest = cfg;
+        while let Some(i) = rest.find("(on-press press-vkey ") {
+            let after = &rest[i + "(on-press press-vkey ".len()..];
+            let name: String = after.chars().take_while(|ch| *ch != ')').collect();
+            let expect = format!(") (on-release release-vkey {name})");
+            if !after[name.len()..].starts_with(&expect) {
+                balanced = false;
+                break;
+            }
+            rest = &after[name.len()..];
+        }
+        balanced && c("toggle") == 0 && c("on-release press-vkey") == 0
     };
     let same = |cfg: &str, h: &[Ev]| -> bool { non_latching(cfg) && hist_is_consistent(h) && judge_pair(cfg, bound, h).map(|(s, _)| class(&s) == class(&sig0)).unwrap_or(false) };
     let mut h: Vec<Ev> = h.to_vec();
@@ -426,7 +554,7 @@ impl Check for C01Check {
         "C01"
     }
     fn n_cases(&self, ctx: &Ctx) -> u64 {
-        N_STRESS + ctx.tier.sel(4_000, 80_000)
+        N_STRESS + ctx.tier.sel(15_000, 250_000)
     }
     fn describe(&self, ctx: &Ctx, idx: u64) -> Value {
         let c = make_case(ctx, idx);
@@ -464,6 +592,11 @@ impl Check for C01Check {
                     Ev::T(n) => {
                         for _ in 0..*n {
                             loop_tick(&mut sim);
+                            let l = sim.k.layout.b();
+                            max_macros = max_macros.max(l.active_sequences.len());
+                            max_wait = max_wait.max(l.extra_waiting.len() + l.waiting.is_some() as usize);
+                            max_states = max_states.max(l.states.len());
+                            max_oneshot = max_oneshot.max(l.oneshot.keys.len());
                         }
                     }
                     other => sim.apply(other),
@@ -475,6 +608,34 @@ impl Check for C01Check {
                 max_oneshot = max_oneshot.max(l.oneshot.keys.len());
                 max_macros = max_macros.max(l.active_sequences.len());
             }
+            // ---- drain: until kanata says it may block, everything is up and it has been quiet
+            let t_end = sim.now;
+            let mut quiet = 0u64;
+            let mut settled_at: Option<u64> = None;
+            let mut last_output_tick = sim.trace.last().map(|o| o.at).unwrap_or(0);
+            while sim.now - t_end < bound {
+                let n_before = sim.trace.len();
+                let cb = loop_tick(&mut sim);
+                {
+                    let l = sim.k.layout.b();
+                    max_macros = max_macros.max(l.active_sequences.len());
+                    max_wait = max_wait.max(l.extra_waiting.len() + l.waiting.is_some() as usize);
+                    max_states = max_states.max(l.states.len());
+                    max_oneshot = max_oneshot.max(l.oneshot.keys.len());
+                }
+                if sim.trace.len() > n_before {
+                    quiet = 0;
+                    last_output_tick = sim.now;
+                } else {
+                    quiet += 1;
+                }
+                if cb && sim.is_idle() && sim.os.all_up() && quiet >= QUIET {
+                    settled_at = Some(sim.now - t_end);
+                    break;
+                }
+            }
+            out.inc("histories");
+            out.count("events", h.len() as u64);
             out.max("queue", max_q as u64);
             out.max("states", max_states as u64);
             out.max("waiting", max_wait as u64);
@@ -495,30 +656,9 @@ impl Check for C01Check {
             if max_macros >= 4 {
                 out.inc("hist_macros_full");
             }
-            // ---- drain: until kanata says it may block, everything is up and it has been quiet
-            let t_end = sim.now;
-            let mut quiet = 0u64;
-            let mut settled_at: Option<u64> = None;
-            let mut last_output_tick = sim.trace.last().map(|o| o.at).unwrap_or(0);
-            while sim.now - t_end < bound {
-                let n_before = sim.trace.len();
-                let cb = loop_tick(&mut sim);
-                if sim.trace.len() > n_before {
-                    quiet = 0;
-                    last_output_tick = sim.now;
-                } else {
-                    quiet += 1;
-                }
-                if cb && sim.is_idle() && sim.os.all_up() && quiet >= QUIET {
-                    settled_at = Some(sim.now - t_end);
-                    break;
-                }
-            }
-            out.inc("histories");
-            out.count("events", h.len() as u64);
             let witness = |sim: &Sim, extra: Value| {
                 let tail: Vec<String> = sim.trace.iter().rev().take(30).rev().map(|o| o.short()).collect();
-                json!({"config": c.g.text, "history_kind": hname, "history": render_hist(h), "drain_bound": bound, "os_model": sim.os.describe(), "is_idle": sim.is_idle(), "last_outputs": tail, "extra": extra,
+                json!({"config": c.g.text, "kinds": c.g.kinds_used.iter().copied().collect::<Vec<_>>(), "history_kind": hname, "history": render_hist(h), "drain_bound": bound, "os_model": sim.os.describe(), "is_idle": sim.is_idle(), "last_outputs": tail, "extra": extra,
                     "layout": {"queue": sim.k.layout.b().queue.len(), "states": format!("{:?}", sim.k.layout.b().states).chars().take(600).collect::<String>(), "waiting": sim.k.layout.b().waiting.is_some(), "oneshot_keys": sim.k.layout.b().oneshot.keys.len(), "active_sequences": sim.k.layout.b().active_sequences.len()}})
             };
             match settled_at {
@@ -544,7 +684,9 @@ impl Check for C01Check {
                     if kinds.is_empty() {
                         kinds.push("cannot-block");
                     }
-                    let sig = format!("stuck:{}", kinds.join("+"));
+                    // kanata runs at most 4 macros at a time (documented); a history that filled
+                    // that ring is classified separately (known finding: the 5th evicts the oldest)
+                    let sig = format!("stuck:{}{}", kinds.join("+"), if max_macros >= 4 { "|macro-ring-full" } else { "" });
                     out.violate(sig, format!("after every key was released and {bound} further ticks: {}", kinds.join(", ")), witness(&sim, json!(null)));
                 }
                 Some(d) => {
